@@ -1,0 +1,28 @@
+//go:build verif
+
+// Verification hooks (build tag "verif" only; add-only; nothing here is compiled into normal builds).
+package standard
+
+import (
+	"sort"
+	"strconv"
+)
+
+// VerifC20BuilderBidsCacheSlots is the slots for which builder bids are cached, ascending
+// (a key that is not a slot number is reported as the highest possible slot).
+func (s *Service) VerifC20BuilderBidsCacheSlots() []uint64 {
+	s.builderBidsCacheMu.RLock()
+	defer s.builderBidsCacheMu.RUnlock()
+
+	slots := make([]uint64, 0, len(s.builderBidsCache))
+	for key := range s.builderBidsCache {
+		slot, err := strconv.ParseUint(key, 10, 64)
+		if err != nil {
+			slot = ^uint64(0)
+		}
+		slots = append(slots, slot)
+	}
+	sort.Slice(slots, func(i, j int) bool { return slots[i] < slots[j] })
+
+	return slots
+}
